@@ -122,7 +122,94 @@ def conc_c17(tier, seed):
     ]
 
 
+FIFO_MACROS = {"send": 5, "sendt": 2, "sendot": 1, "try": 2, "recv": 5, "recvt": 2, "tryr": 2, "drain": 2,
+               "asend1": 2, "asend2": 1, "asenddrop": 2, "arecv2": 2, "stream3": 2}
+CLOSE_MACROS = dict(MIXED, close=6, isclosed=2, scount=1, rcount=1)
+DISC_MACROS = dict(MIXED, drops=5, dropr=5, clones=2, cloner=2, isdisc=2, isterm=1, close=0)
+
+
+def conc_prof(name, macros, monitors, oracles=("ledger", "lifetime", "timeout"), qn=400, tn=12000, **kw):
+    def f(tier, seed):
+        n = qn if tier == "quick" else tn
+        return [(Profile(name, macros, threads=kw.get("threads", (2, 4)), ops=kw.get("ops", (1, 3)), n=n,
+                         strategies=kw.get("strategies", STRATS), caps=kw.get("caps", ("0", "1", "2", "u")), extra="tickp=30"),
+                 list(monitors), list(oracles))]
+    return f
+
+
+def fams_c02(tier, seed):
+    if tier == "quick":
+        return [
+            Family("order5", "exh", "SyvAdc", "1,2", depth=5, configs=("w:s", "l:a")),
+            Family("cancel6", "exh", "Avd", "0,1", depth=6, configs=("w:a",)),
+            Family("rand-order", "rand", "STYyRUvdABMc", "0,1,2,u", length=40, n=3000, configs=("w:s", "l:a", "b:s")),
+        ]
+    return [
+        Family("order6", "exh", "SyvAdc", "1,2", depth=6, configs=("w:s", "l:a", "b:a")),
+        Family("cancel7", "exh", "Avd", "0,1,2", depth=7, configs=("w:a", "l:s")),
+        Family("rand-order", "rand", "STYyRUvdABMc", "0,1,2,u", length=60, n=40000, configs=ALLCFG),
+    ]
+
+
+def fams_c08(tier, seed):
+    if tier == "quick":
+        return [
+            Family("boundary4", "exh", "STYRvAo", "0,1,2,u", depth=4, configs=("w:s", "l:a")),
+            Family("rand-cap", "rand", "STYyRUvdABo", "0,1,2,u", length=40, n=3000, configs=("w:s", "z:a")),
+        ]
+    return [
+        Family("boundary5", "exh", "STYRvAo", "0,1,2,u", depth=5, configs=("w:s", "l:a", "b:s")),
+        Family("rand-cap", "rand", "STYyRUvdABo", "0,1,2,u", length=60, n=40000, configs=ALLCFG),
+    ]
+
+
+def fams_c10(tier, seed):
+    if tier == "quick":
+        return [
+            Family("close4", "exh", "STYRUVDABMCo", "0,1", depth=4, configs=("w:s", "l:a")),
+            Family("rand-close", "rand", "STYyRUvdABMCKh", "0,1,2,u", length=30, n=3000, configs=("w:s", "b:a")),
+        ]
+    return [
+        Family("close5", "exh", "STyRUvdABMCo", "0,1,2", depth=5, configs=("w:s", "l:a", "z:s")),
+        Family("rand-close", "rand", "STYyRUvdABMCKh", "0,1,2,u", length=50, n=40000, configs=ALLCFG),
+    ]
+
+
+def fams_c11(tier, seed):
+    if tier == "quick":
+        return [
+            Family("disc5", "exh", "SyvAhK", "0,1", depth=5, configs=("w:s", "l:a")),
+            Family("disc4", "exh", "STYRUVDABMHo", "1", depth=4, configs=("b:a",)),
+            Family("rand-disc", "rand", "STYyRUvdABMHKo", "0,1,2,u", length=40, n=3000, configs=("w:s", "z:a")),
+        ]
+    return [
+        Family("disc6", "exh", "SyvAhK", "0,1", depth=6, configs=("w:s", "l:a")),
+        Family("disc5b", "exh", "STyRUvdABMHo", "1", depth=5, configs=("b:a", "w:s")),
+        Family("rand-disc", "rand", "STYyRUvdABMHKo", "0,1,2,u", length=60, n=40000, configs=ALLCFG),
+    ]
+
+
+def simple(pid, level, fams, conc, relevant, expl, extra_files=(), corpus=(), corpus_mon=()):
+    return dict(level=level, lean_targets=[f"Kanal.Props.{pid}"], props_files=[f"Kanal/Props/{pid}.lean"] + list(extra_files),
+                leancheck=[f"Kanal.Props.{pid}"], families=fams, conc=conc, relevant=relevant,
+                conc_corpus=list(corpus), conc_corpus_monitors=list(corpus_mon),
+                trusted=["specgen/seqdrv text protocol", "conc scheduler, monitors and oracles (harness, lib/conc.py)"],
+                assumptions=COMMON_ASSUME, explanation=expl)
+
+
 PROPS = {
+    "C02": simple("C02", "proof", fams_c02, conc_prof("fifo", FIFO_MACROS, ["fifo", "stuck"], caps=("0", "1", "2")),
+                  rel_tokens(r"\bv\d+|drained \d+ \[[\d,]*\]"),
+                  "Fifo invariant (accepted minus withdrawn = delivered ++ buffer ++ blocked senders, in order) proved inductive over every step; corollaries: delivery respects acceptance order, nothing overtakes, one drain returns acceptance order"),
+    "C08": simple("C08", "proof", fams_c08, conc_prof("capacity", MIXED, ["capacity", "stuck"]),
+                  rel_ops("send", "sendt", "sendot", "try", "polls", "len", "isfull", "isempty", "capacity", "isbounded"),
+                  "buffer length within capacity in every reachable state; refusal iff no waiting receiver and no room; unbounded never refuses/waits; capacity 0 never buffers; counting identity accepted-not-blocked minus delivered = buffer length"),
+    "C10": simple("C10", "proof", fams_c10, conc_prof("close", CLOSE_MACROS, ["close", "stuck"]),
+                  rel_ops("close", "isclosed", "scount", "rcount", "send", "sendt", "sendot", "try", "recv", "recvt", "tryr", "drain", "polls", "pollr"),
+                  "close succeeds exactly once; at its critical section every waiter is terminated and woken, the buffer destroyed, counts zero; afterwards every entry point answers Closed and the delivery log never grows"),
+    "C11": simple("C11", "proof", fams_c11, conc_prof("disconnect", DISC_MACROS, ["disconnect", "stuck"]),
+                  rel_ops("drop", "clone", "isdisc", "isterm", "recv", "recvt", "tryr", "pollr", "send", "sendt", "sendot", "try", "polls", "drain"),
+                  "no disconnect error while a handle of the other side lives (via C12); after the last sender: wait list empty, receives drain the buffer in order then SendClosed; the last drop of a side terminates all waiters; after the last receiver sends fail with ReceiveClosed and the value never reaches a receiver (cust_stable)"),
     "C01": dict(
         level="proof",
         lean_targets=["Kanal.Props.C01"],
